@@ -592,6 +592,7 @@ func (c *Ctx) c11Decide(sites []partialSite, tb *ir.TB) {
 
 	c.ruleDispatch(tb)
 	c.ruleCycle(vtree, tb, rejects)
+	c.ruleRegistry()
 	c.ruleGate()
 }
 
@@ -940,6 +941,50 @@ func isBoolCounter(f *ssa.Function) bool {
 		}
 	}
 	return true
+}
+
+// ruleRegistry (C11 R-registry): the validator treats ids as plain strings (equality, uniqueness, reference
+// resolution). The run-time registries must use the very same identity: an object is registered under
+// GetId() as it is, and looked up under the id as it is given - no folding, trimming or prefixing that
+// would make two ids the validator considers different collide (or one id unresolvable).
+func (c *Ctx) ruleRegistry() {
+	n := 0
+	for _, pkg := range []string{PkgCurves, PkgSensors, PkgFans} {
+		for _, fn := range c.P.Funcs {
+			if load_FuncPkgPath(fn) != pkg || fn.Parent() != nil || len(fn.Blocks) == 0 || fn.Signature.Recv() != nil {
+				continue
+			}
+			tb := ir.NewTB(c.P.IsRepoFunc, c.P.FuncKey)
+			Calls(fn, func(cc ssa.CallInstruction) {
+				name := ir.CallName(cc)
+				isSet := strings.HasSuffix(name, ".Set") && strings.Contains(name, "concurrent-map")
+				isGet := (strings.HasSuffix(name, ".Get") || strings.HasSuffix(name, ".Has") || strings.HasSuffix(name, ".Remove")) && strings.Contains(name, "concurrent-map")
+				if !isSet && !isGet {
+					return
+				}
+				args := cc.Common().Args
+				if len(args) < 2 {
+					return
+				}
+				n++
+				kt := tb.Of(args[1], nil)
+				key := c.FK(fn) + "|" + name[strings.LastIndex(name, ".")+1:]
+				okKey := false
+				switch {
+				case strings.HasPrefix(kt.Op, "param:"):
+					okKey = true
+				case strings.HasPrefix(kt.Op, "invoke:") && strings.HasSuffix(kt.Op, ".GetId") && len(kt.Args) == 1 && strings.HasPrefix(kt.Args[0].Op, "param:"):
+					okKey = true
+				}
+				if okKey {
+					c.R.Ok("R-registry", key, c.FK(fn), c.P.Pos(cc.Pos()), "registry key is the id as given ("+kt.String()+")")
+				} else {
+					c.R.Bad("R-registry", key, c.FK(fn), c.P.Pos(cc.Pos()), "the registry key is a transformation of the id ("+kt.String()+"): ids the validator treats as different (unique, resolvable, acyclic) can collide or fail to resolve at run time")
+				}
+			})
+		}
+	}
+	c.R.Require("R-registry", 6)
 }
 
 func (c *Ctx) ruleCycle(vtree map[*ssa.Function]bool, tb *ir.TB, rejects func(*ssa.Function, edge) bool) {
